@@ -93,7 +93,7 @@ func vp9Key(profile int, twelveBit bool, colorRange bool, ssx, ssy bool, width, 
 // that differ in exactly one of the components the muxer watches ("" = the two reference sets, which differ in all).
 func (c muxCfg) pset(kind string, p int) paramSet {
 	switch kind {
-	case "h264", "h264b":
+	case "h264", "h264b", "h264k":
 		base := h264ParamsOf(kind)
 		out := base[0]
 		if p == 1 {
@@ -189,7 +189,7 @@ func init() {
 	}
 }
 
-func isH264(kind string) bool { return kind == "h264" || kind == "h264b" }
+func isH264(kind string) bool { return kind == "h264" || kind == "h264b" || kind == "h264k" }
 
 func h264ParamsOf(kind string) []paramSet {
 	if kind == "h264b" {
@@ -302,7 +302,7 @@ type trackSpec struct {
 
 func (t trackSpec) video() bool {
 	switch t.Kind {
-	case "h264", "h264b", "h265", "h265b", "vp9", "av1":
+	case "h264", "h264b", "h264k", "h265", "h265b", "vp9", "av1":
 		return true
 	}
 	return false
@@ -316,6 +316,8 @@ func (t trackSpec) clock() int {
 		return 48000
 	case "aac16":
 		return 16000
+	case "h264k": // H264 on a millisecond clock (MPEG-TS only: the muxer rescales to 90 kHz; fMP4 tracks keep their timescale)
+		return 1000
 	case "aacsbr": // HE-AAC, explicit SBR signalling: 24 kHz core (the track's clock and timescale), 48 kHz extension
 		return 24000
 	}
@@ -427,7 +429,7 @@ func newTrackCfg(c muxCfg, t trackSpec) *Track {
 		return tr
 	}
 	switch t.Kind {
-	case "h264":
+	case "h264", "h264k":
 		tr.Codec = &codecs.H264{SPS: bytes.Clone(h264Params[0].sps), PPS: bytes.Clone(h264Params[0].pps)}
 	case "h264b":
 		tr.Codec = &codecs.H264{SPS: bytes.Clone(h264bParams[0].sps), PPS: bytes.Clone(h264bParams[0].pps)}
@@ -534,7 +536,7 @@ func (mi *muxInst) videoData(u wunit) [][]byte {
 	if u.Corrupt {
 		// a parameter set NALU / OBU of the right type whose contents end too early; the picture itself is in order
 		switch kind {
-		case "h264":
+		case "h264", "h264k":
 			return [][]byte{{0x67, 0x42}, mi.cfg.pset(kind, p).pps, append([]byte{0x65}, payloadTail(u, 0)...)}
 		case "h265":
 			return [][]byte{mi.cfg.pset(kind, p).vps, {0x42, 0x01, 0x01}, mi.cfg.pset(kind, p).pps, append([]byte{19 << 1, 0x01}, payloadTail(u, 0)...)}
@@ -545,7 +547,7 @@ func (mi *muxInst) videoData(u wunit) [][]byte {
 	if u.NoSlice {
 		ps := mi.cfg.pset(kind, p)
 		switch kind {
-		case "h264", "h264b":
+		case "h264", "h264b", "h264k":
 			return [][]byte{ps.sps, ps.pps}
 		case "h265", "h265b":
 			return [][]byte{ps.vps, ps.sps, ps.pps}
@@ -557,7 +559,7 @@ func (mi *muxInst) videoData(u wunit) [][]byte {
 			au = append(au, mi.cfg.pset(kind, p).sps, mi.cfg.pset(kind, p).pps)
 		}
 		au = append(au, h264bSlice(u.RA, uint32(u.POC), append([]byte{0xff}, payloadTail(u, 0)...)))
-	case "h264":
+	case "h264", "h264k":
 		if u.Params != 0 {
 			au = append(au, mi.cfg.pset(kind, p).sps, mi.cfg.pset(kind, p).pps)
 		}
@@ -620,7 +622,7 @@ func (mi *muxInst) write(u wunit) error {
 	tr := mi.tracks[u.Track]
 	ntp := mi.ntpOf(u)
 	switch mi.cfg.Tracks[u.Track].Kind {
-	case "h264", "h264b":
+	case "h264", "h264b", "h264k":
 		return mi.m.WriteH264(tr, ntp, u.DTS, mi.videoData(u))
 	case "h265", "h265b":
 		return mi.m.WriteH265(tr, ntp, u.DTS, mi.videoData(u))
